@@ -119,3 +119,82 @@ Example C06_P_hyp_met :
   stopped s = true /\ Op_Corr.sort_dedup (unlocked s) = [1; 2; 3; 7; 8]%N /\
   map (fun q => (q_name q, N.of_nat (length (q_items q)))) (queues s) = [(0, 2); (3, 1); (4, 1)]%N.
 Proof. vm_compute. repeat split. Qed.
+
+(* ---- the EnableKubernetesBindings task in an environment whose monitor creations fail
+   (C06_Enable; Op_Model above treats this task as always succeeding) ---- *)
+From Verif Require C06_Enable C06_EnableSpec C06_EnableProofs.
+
+(* for EVERY hook with kubernetes bindings and EVERY finite failure pattern (any AddMonitor of
+   any binding failing in any attempts) the task succeeds after at most [length F] failed runs;
+   the failed runs return no task, the successful run creates every monitor (in config order,
+   no failure) and returns exactly Op_Model's Synchronization tasks - one per kubernetes
+   binding, config order, each with its own monitor id, executeHookOnSynchronization, group,
+   allowFailure, for the main queue - and afterwards every binding's monitor is registered *)
+Theorem C06_enable_retried_until_delivered : forall h F,
+  h_kube h <> [] ->
+  exists failed last stf,
+    C06_Enable.enable_task h F = (failed ++ [last], stf)
+    /\ (length failed <= length F)%nat
+    /\ Forall C06_EnableProofs.failed_run failed
+    /\ C06_Enable.at_ok last = true
+    /\ C06_Enable.at_head last = map (sync_task h) (h_kube h)
+    /\ C06_Enable.at_calls last = C06_EnableProofs.ok_calls (h_kube h)
+    /\ (forall b, In b (h_kube h) -> C06_Enable.has_monitor stf (kb_mon b) = true).
+Proof. exact C06_EnableProofs.enable_task_delivers. Qed.
+Print Assumptions C06_enable_retried_until_delivered.
+
+(* all the tasks that ever reach the queue from this task, whatever failed before: exactly the
+   list Op_Model's EnableKube step inserts (C06_enable_kube_creates_syncs) *)
+Theorem C06_enable_heads : forall h F,
+  C06_Enable.heads_of (fst (C06_Enable.enable_task h F)) = map (sync_task h) (h_kube h).
+Proof. exact C06_EnableProofs.enable_task_heads. Qed.
+Print Assumptions C06_enable_heads.
+
+(* what a failed run leaves behind: the monitors of the bindings before the failing one were
+   created, linked and started (again) and stay - nothing is undone, no task is returned *)
+Theorem C06_enable_failed_run_leaves : forall h F a st k,
+  C06_EnableProofs.first_fail F a 0 (h_kube h) = Some k ->
+  exists b st' att,
+    nth_error (h_kube h) k = Some b /\ C06_Enable.handle_enable h F a st = (st', att)
+    /\ C06_Enable.at_ok att = false /\ C06_Enable.at_head att = []
+    /\ C06_Enable.at_calls att = C06_EnableProofs.ok_calls (firstn k (h_kube h)) ++ [C06_Enable.AddFail (kb_mon b)]
+    /\ C06_Enable.k_made st' = C06_Enable.k_made st ++ map kb_mon (firstn k (h_kube h))
+    /\ C06_Enable.k_mons st' = rev (map kb_mon (firstn k (h_kube h))) ++ C06_Enable.k_mons st.
+Proof. exact C06_EnableProofs.enable_failed_run_leaves. Qed.
+Print Assumptions C06_enable_failed_run_leaves.
+
+(* the decidable predicate C06_EnableSpec.P_enable (the task succeeds in the end; exactly one
+   Synchronization task per kubernetes binding reaches the main queue, with the binding's
+   group and executeHookOnSynchronization; no Event of a binding before its unlock) holds of
+   the model's own observations for EVERY hook with distinct monitor ids and EVERY pattern *)
+Theorem C06_enable_P_holds : forall h F,
+  NoDup (map kb_mon (h_kube h)) ->
+  C06_EnableSpec.P_enable h (fst (C06_Enable.enable_task h F)) (Some (C06_Enable.enable_probe h F)) = true.
+Proof. exact C06_EnableProofs.enable_P_holds. Qed.
+Print Assumptions C06_enable_P_holds.
+
+(* once the task is done, unlocking by the returned tasks lets every binding's Events flow *)
+Theorem C06_enable_probe_events : forall h F,
+  C06_Enable.enable_probe h F = map (fun b => ([], [kb_mon b])) (h_kube h).
+Proof. exact C06_EnableProofs.enable_probe_events. Qed.
+Print Assumptions C06_enable_probe_events.
+
+(* non-vacuity: three bindings (two share a name and a group), the second one's monitor fails
+   in attempt 0, the first one's in attempt 1, the third one's in attempts 1 and 2: three failed
+   runs (calls: ok,FAIL / FAIL / ok,ok,FAIL), then success; monitor 11 was created three times *)
+Example C06_enable_hyp_met :
+  let h := mkHook 1 false None [mkKb 1 0 2 false true 11; mkKb 1 3 2 true false 12; mkKb 3 0 0 false true 13] [] in
+  let F := [(0, 1); (1, 0); (1, 2); (2, 2)]%N in
+  h_kube h <> [] /\ NoDup (map kb_mon (h_kube h)) /\
+  C06_EnableProofs.first_fail F 2 0 (h_kube h) = Some 2%nat /\
+  map C06_Enable.at_ok (fst (C06_Enable.enable_task h F)) = [false; false; false; true] /\
+  map C06_Enable.at_calls (fst (C06_Enable.enable_task h F))
+  = [[C06_Enable.AddOk 11; C06_Enable.AddFail 12]; [C06_Enable.AddFail 11];
+     [C06_Enable.AddOk 11; C06_Enable.AddOk 12; C06_Enable.AddFail 13];
+     [C06_Enable.AddOk 11; C06_Enable.AddOk 12; C06_Enable.AddOk 13]]%N /\
+  C06_Enable.k_made (snd (C06_Enable.enable_task h F)) = [11; 11; 12; 11; 12; 13]%N.
+Proof.
+  cbv zeta. split; [discriminate|]. split.
+  - repeat constructor; cbn; intuition discriminate.
+  - vm_compute. repeat split.
+Qed.
